@@ -62,7 +62,11 @@ class KDMixWrapper(KDWrapper):
     def getitem_xclass(self, idx, ctx=None):
         x = self.dataset.getitem_x(idx, ctx=ctx)
         cls = self.dataset.getitem_class(idx, ctx=ctx)
-        rng = np.random.default_rng(seed=self.seed + idx if self.seed is not None else None)
+        if self.seed is not None:
+            rng = np.random.default_rng(seed=self.seed + idx)
+        else:
+            # derive the generator from the global numpy rng (which is seeded per dataloader worker) instead of os entropy
+            rng = np.random.default_rng(seed=np.random.randint(np.iinfo(np.int32).max))
 
         # sample what operation to apply (nothing/cutmix/mixup)
         n_classes = self.getdim_class()
